@@ -101,9 +101,14 @@ DIRECTED = [
      {"1099-int": 1},
      {"w-2:0.box_1": "10000.00", "w-2:0.box_2": "300.00", "1099-int:0.box_1": "11500.00", "1099-int:0.box_6": "290.00", "1040.dependent_0_odc": "yes",
       "1040_s8812.advance_ctc_payments": "0.00", "1040_s3.other_foreign_gross_income": "no"}),
+    # (2021) a couple of whom only one has a social security number, no armed-forces exception: recovery rebate of one person
+    ({"status": "MarriedFilingJointly", "dependents": 0, "wage_scale": 60000},
+     {}, {"1040_recovery_rebate_credit_wkst.ssn_before_due_date": "no", "1040_recovery_rebate_credit_wkst.armed_forces": "no",
+          "1040_recovery_rebate_credit_wkst.either_ssn_before_due_date": "yes", "1040_recovery_rebate_credit_wkst.eip_3_amount": "0.00",
+          "w-2:0.box_1": "70000.00", "w-2:0.box_2": "8000.00"}),
     # a high earner (Additional Medicare Tax, Form 8959) with withholding that is not from a W-2
     ({"status": "Single", "dependents": 0, "wage_scale": 230000},
-     {}, {"w-2:0.box_1": "230000.00", "w-2:0.box_3": "147000.00", "w-2:0.box_5": "230000.00", "w-2:0.box_2": "45000.00", "w-2:0.box_6": "3605.00",
+     {}, {"w-2:0.box_1": "245050.00", "w-2:0.box_3": "147000.00", "w-2:0.box_5": "245050.00", "w-2:0.box_2": "48000.00", "w-2:0.box_6": "3958.68",   # taxable income just below the 35 % bracket of 2023
           "1040.other_federal_withholding": "500.00", "1040.estimated_tax_payments": "1000.00"}),
     # Form 8606 part I: an IRA that fell below its basis (basis above year-end value + distributions): the nontaxable ratio is capped at 1
     ({"status": "Single", "dependents": 0, "wage_scale": 60000, "ira": True, "f8606": True},
